@@ -505,7 +505,10 @@ fn wire_login(port: u16, user: &str, database: Option<&str>, secret: &dyn Fn(Opt
 }
 
 fn wire_family(cx: &mut Ctx, args: &Args, rng: &mut Rng) {
-    let bin = match build_server(&args.scratch) {
+    let t0 = std::time::Instant::now();
+    let built = build_server(&args.scratch);
+    cx.rep.extra.insert("server_build_s".into(), serde_json::json!(t0.elapsed().as_secs_f64()));
+    let bin = match built {
         Ok(b) => b,
         Err(e) => {
             cx.rep.fail(FailKind::Oracle, None, "the server binary of the tree under test does not build (wire-level logins impossible)", &e);
